@@ -280,6 +280,8 @@ def _add_get(cx, pkg, main, svc, noun, res, suffix=""):
             m["http"]["additional"] = [{"verb": "get", "path": f"{_path_prefix(cx)}/{{name=organizations/*/{res['coll']}/*}}"}]
     if cx.chance("p_signature"):
         m["signatures"] = ["name"]
+    if cx.chance("p_routing"):
+        m["routing"] = gen_routing(cx.rng, res)
     svc["methods"].append(m)
 
 
@@ -355,6 +357,8 @@ def _gen_methods(cx, pkg, main, svc, noun, res, enums, msgs):
             m["http"] = {"verb": rng.choice(["patch", "put"]), "path": f"{pre}/{{{low}.name={wild}}}", "body": low}
         if cx.chance("p_signature"):
             m["signatures"] = [f"{low},update_mask"]
+        if cx.chance("p_routing"):
+            m["routing"] = gen_routing(rng, res, field=f"{low}.name")
         svc["methods"].append(m)
 
     if cx.chance("p_delete"):
@@ -369,6 +373,8 @@ def _gen_methods(cx, pkg, main, svc, noun, res, enums, msgs):
             m["http"] = {"verb": "delete", "path": f"{pre}/{{name={wild}}}"}
         if cx.chance("p_signature"):
             m["signatures"] = ["name"]
+        if cx.chance("p_routing"):
+            m["routing"] = gen_routing(rng, res)
         svc["methods"].append(m)
 
     if cx.chance("p_custom"):
@@ -615,26 +621,25 @@ def _gen_list_variant(cx, pkg, main, svc, noun, res, enums, msgs):
     svc["methods"].append(m)
 
 
-def gen_routing(rng, res):
-    """Explicit google.api.routing parameters over the ``name`` field of a resource pattern."""
+def gen_routing(rng, res, field="name"):
+    """Explicit google.api.routing parameters over a resource-name field (AIP-4222 shapes: no
+    template, {k=*}-style captures, {k=**}, literal prefixes/suffixes, several parameters sharing a
+    key, nested fields)."""
     pat = res["pattern"]               # projects/{project}/[locations/{location}/]coll/{x}
     segs = pat.split("/")
-    out = []
+    wild = ["*" if x.startswith("{") else x for x in segs]
+    shapes = [
+        {"field": field},
+        {"field": field, "path_template": "{routing_id=projects/*}/**"},
+        {"field": field, "path_template": "{routing_id=**}"},
+        {"field": field, "path_template": "{routing_id=" + "/".join(wild) + "}"},
+        {"field": field, "path_template": "{project=projects/*}/" + "/".join(wild[2:])},
+        {"field": field, "path_template": "projects/*/{" + segs[2][:-1].rstrip("e") + "_part=" + "/".join(wild[2:4]) + "}" + ("/**" if len(segs) > 4 else "")},
+        {"field": field, "path_template": "{routing_id=projects/*/" + wild[2] + "/*}" + ("/**" if len(segs) > 4 else "")},
+        {"field": field, "path_template": "{" + segs[-2][:-1] + "_id=" + "/".join(wild) + "}"},
+    ]
     n = rng.randint(1, 3)
-    for _ in range(n):
-        c = rng.random()
-        if c < 0.2:
-            out.append({"field": "name"})
-        elif c < 0.45:
-            out.append({"field": "name", "path_template": "{routing_id=projects/*}/**"})
-        elif c < 0.6:
-            out.append({"field": "name", "path_template": "{name=**}"})
-        elif c < 0.8:
-            out.append({"field": "name", "path_template": "projects/*/{table_location=" + "/".join(
-                "*" if s.startswith("{") else s for s in segs[2:4]) + "}/**" if len(segs) >= 6 else "{routing_id=projects/*}/**"})
-        else:
-            out.append({"field": "name", "path_template": "{routing_id=" + _wild(pat) + "}"})
-    return out
+    return [dict(rng.choice(shapes)) for _ in range(n)]
 
 
 def _dur(rng):
